@@ -120,12 +120,13 @@ func genSpec(rng *rand.Rand, i int, thorough bool) tableSpec {
 			s.Filter = "bloom(10)"
 		}
 	}
-	s.NPrefixes = pick(rng, 1, 3, 8, 20, 40, 80)
-	s.MaxVersions = pick(rng, 1, 2, 3, 5)
-	s.ValLen = pick(rng, 0, 3, 10, 40, 120, 400)
-	if thorough && rng.IntN(6) == 0 {
-		s.NPrefixes = pick(rng, 150, 300)
-		s.ValLen = pick(rng, 10, 40, 120)
+	s.NPrefixes = pick(rng, 1, 3, 8, 20, 40)
+	s.MaxVersions = pick(rng, 1, 2, 3)
+	s.ValLen = pick(rng, 0, 3, 10, 40, 120)
+	if thorough && rng.IntN(8) == 0 {
+		s.NPrefixes = pick(rng, 80, 150, 300)
+		s.MaxVersions = pick(rng, 1, 3, 5)
+		s.ValLen = pick(rng, 10, 40, 120, 400)
 	}
 	s.UniformKV = rng.IntN(3) == 0
 	if s.UniformKV {
@@ -504,8 +505,8 @@ func genBlobSpec(rng *rand.Rand, i int) blobSpec {
 		Checksum:  pick(rng, block.ChecksumTypeCRC32c, block.ChecksumTypeXXHash64),
 		Profile:   profileNames[(i/2)%len(profileNames)],
 		BlockSize: pick(rng, 64, 200, 1000, 4096),
-		NValues:   pick(rng, 1, 5, 30, 120),
-		ValLen:    pick(rng, 1, 8, 40, 200),
+		NValues:   pick(rng, 1, 5, 30, 80),
+		ValLen:    pick(rng, 1, 8, 40, 120),
 	}
 }
 
